@@ -1,10 +1,79 @@
-(* Lemmas for property C09 over TV.Udp.Model. *)
+(* Lemmas for property C09 over TV.Udp.Model: glue on top of Routes (send vs
+   Targets), Recv (delivery and the receive paths), Groups (swap_remove and the
+   group table) and Inv (invariants of every reachable world). *)
 From TV.Lib Require Import Base.
-From TV.Udp Require Import Model.
+From TV.Udp Require Export Model Spec Routes Recv Groups Inv.
 Open Scope N_scope.
 
-Lemma clip_firstn buflen payload :
-  clip buflen payload = firstn (Nat.min (N.to_nat buflen) (length payload)) payload.
+(* get_bind only looks at the hosts *)
+Lemma get_bind_set_groups w g h port : get_bind (set_groups w g) h port = get_bind w h port.
+Proof. reflexivity. Qed.
+
+Lemma get_bind_set_inflight w l h port : get_bind (set_inflight w l) h port = get_bind w h port.
+Proof. reflexivity. Qed.
+
+(* delivery never consults the group table: membership is evaluated when the
+   datagram is sent *)
+Lemma deliver_ignores_groups w g p h port :
+  get_bind (deliver_pkt (set_groups w g) p) h port = get_bind (deliver_pkt w p) h port.
+Proof. now rewrite !deliver_get_bind. Qed.
+
+(* the only event that extends the `sent` log is an accepted Send *)
+Lemma sent_log w e :
+  sent (fst (step w e)) = sent w \/
+  exists h port dst payload hs b,
+    e = Send h port dst payload /\ find_host w h = Some hs /\ find_bind hs port = Some b /\
+    sent (fst (step w e)) = sent w ++
+      [{| sr_sid := next_sid w; sr_host := h; sr_port := port; sr_src := true_src h b dst; sr_dst := dst;
+          sr_payload := payload; sr_targets := map rkey (snd (send_routes w hs b dst)) |}].
 Proof.
-  unfold clip. f_equal. rewrite N2Nat.inj_min, Nat2N.id. reflexivity.
+  destruct e as [h port lip|h port peer|h port on|h port on|h port g|h port g|h port dst payload|gid|gid|h bound|h port buflen|h port|h port];
+    cbn [step]; unfold with_bind;
+    try (left; destruct (find_host w h) as [hs|]; [|reflexivity];
+         repeat match goal with |- context [match ?x with _ => _ end] => destruct x end; reflexivity).
+  - destruct (find_host w h) as [hs|] eqn:Fh; [|now left]. destruct (find_bind hs port) as [b|] eqn:Fb; [|now left].
+    right. exists h, port, dst, payload, hs, b. destruct (send_routes w hs b dst) as [res rs]. cbn. auto.
+  - left. destruct (take_pkt _ _) as [[p|] rest]; reflexivity.
+  - left. destruct (take_pkt _ _) as [[p|] rest]; reflexivity.
+  - left. cbn. unfold flush_loop.
+    apply (fold_deliver_inv (fun w0 => sent w0 = sent w)); [|reflexivity].
+    intros w0 p H. destruct (deliver_fields w0 p) as (_ & _ & _ & _ & St & _). congruence.
+Qed.
+
+(* membership after the three group operations, at the level of the world *)
+Lemma join_member w h port g b :
+  wf w -> get_bind w h port = Some b ->
+  let w' := fst (step w (Join h port g)) in
+  forall key m, In m (grp_members (groups w') key) <->
+                In m (grp_members (groups w) key) \/ (key = (Mcast g, port) /\ m = (h, port)).
+Proof.
+  intros W G. destruct (get_bind_some _ _ _ _ G) as (hs & Fh & Fb). cbn [step].
+  rewrite (with_bind_some _ _ _ _ _ _ Fh Fb). cbn. intros key m.
+  apply grp_join_members. apply (wf_gwf w W).
+Qed.
+
+Lemma leave_member w h port g b :
+  wf w -> get_bind w h port = Some b ->
+  In (h, port) (grp_members (groups w) (Mcast g, port)) ->
+  let w' := fst (step w (Leave h port g)) in
+  forall key m, In m (grp_members (groups w') key) <->
+                In m (grp_members (groups w) key) /\ ~ (key = (Mcast g, port) /\ m = (h, port)).
+Proof.
+  intros W G Hm. destruct (get_bind_some _ _ _ _ G) as (hs & Fh & Fb). cbn [step].
+  rewrite (with_bind_some _ _ _ _ _ _ Fh Fb).
+  apply grp_contains_In in Hm. rewrite Hm. cbn. intros key m.
+  apply grp_leave_members. apply (wf_gwf w W).
+Qed.
+
+Lemma drop_member w h port b :
+  wf w -> get_bind w h port = Some b ->
+  let w' := fst (step w (DropSock h port)) in
+  get_bind w' h port = None /\
+  forall key m, In m (grp_members (groups w') key) <-> In m (grp_members (groups w) key) /\ m <> (h, port).
+Proof.
+  intros W G. destruct (get_bind_some _ _ _ _ G) as (hs & Fh & Fb). cbn [step].
+  rewrite (with_bind_some _ _ _ _ _ _ Fh Fb). cbn [fst]. split.
+  - change (fun hs0 : hostst => {| h_id := h_id hs0; h_binds := _ |}) with (del_bind port).
+    rewrite (get_bind_del (set_groups w (grp_leave_all (groups w) (h, port)))). now rewrite !N.eqb_refl.
+  - intros key m. cbn. apply grp_leave_all_members. apply (wf_gwf w W).
 Qed.
